@@ -97,7 +97,7 @@ partial def showValue : Value → String
 
 def G := Generated.devices
 def NZ := Generated.noise
-def exVirtual : List String := ["dmm_objects"]
+def exVirtual : List String := []
 
 def bit (b : Bool) : String := if b then "1" else "0"
 
